@@ -76,22 +76,20 @@ func azOf(exp J) string {
 	return "deny"
 }
 
-func cmpEval(c Obj, obs, exp J) bool {
+func cmpEval(c Obj, obs, exp J) []int {
 	os, _ := obs.([]any)
 	es, _ := exp.([]any)
 	if len(os) != len(es) {
-		return false
+		return []int{-1}
 	}
+	var bad []int
 	for i := range os {
-		if !cwf.ObsEqual(os[i], es[i]) {
-			return false
-		}
 		az, _ := os[i].(Obj)["az"].(string)
-		if az != "n/a" && az != azOf(es[i]) {
-			return false
+		if !cwf.ObsEqual(os[i], es[i]) || (az != "n/a" && az != azOf(es[i])) {
+			bad = append(bad, i)
 		}
 	}
-	return true
+	return bad
 }
 
 func init() {
